@@ -65,6 +65,28 @@ def lifted_lambda(vs, body, name='lam'):
     return arr
 
 
+_iterx_done = set()
+
+
+def iterx_fn(name, state_sort, arr_sorts):
+    """iterx_g(init, i, A1..Ak): the state after i steps s -> g(s, A1[j], .., Ak[j]) for j = 0..i-1.
+    By definition it depends on the first i entries of the argument arrays only (extensionality axiom, witness form)."""
+    f = F(name, state_sort, Int, *arr_sorts, state_sort)
+    key = (name, tuple(str(a) for a in arr_sorts))
+    if key not in _iterx_done and arr_sorts:
+        _iterx_done.add(key)
+        s0 = z3.Const('s0', state_sort)
+        i = z3.Int('i')
+        As = [z3.Const('A%d' % k, a) for k, a in enumerate(arr_sorts)]
+        Bs = [z3.Const('B%d' % k, a) for k, a in enumerate(arr_sorts)]
+        w = z3.Function(name + '!diff', state_sort, Int, *arr_sorts, *arr_sorts, Int)(s0, i, *As, *Bs)
+        differ = z3.Or(*[a[w] != b[w] for a, b in zip(As, Bs)])
+        axiom(name + '.ext', z3.ForAll([s0, i] + As + Bs,
+                                       z3.Or(f(s0, i, *As) == f(s0, i, *Bs), z3.And(0 <= w, w < i, differ)),
+                                       patterns=[z3.MultiPattern(f(s0, i, *As), f(s0, i, *Bs))]), [name], 'definitional')
+    return f
+
+
 def fresh_fn(prefix, *sig):
     _counter[0] += 1
     return z3.Function('%s!%d' % (prefix, _counter[0]), *sig)
@@ -105,12 +127,17 @@ def forall(vs, body, pats=None):
     return z3.ForAll(vs, body)
 
 
-def symbols_of(expr, acc=None, seen=None):
-    """Names of uninterpreted functions/constants occurring in expr."""
-    if acc is None:
-        acc = set()
-    if seen is None:
-        seen = set()
+_sym_cache = {}
+
+
+def _symbols(expr):
+    """Names of the uninterpreted functions/constants of expr (cached per AST node)."""
+    key = expr.get_id()
+    hit = _sym_cache.get(key)
+    if hit is not None and hit[0] is expr.ctx_ref() or hit is not None:
+        return hit[1]
+    acc = set()
+    seen = set()
     todo = [expr]
     while todo:
         e = todo.pop()
@@ -127,17 +154,27 @@ def symbols_of(expr, acc=None, seen=None):
             d = e.decl()
             if d.kind() == z3.Z3_OP_UNINTERPRETED:
                 acc.add(d.name())
-            elif d.kind() in (z3.Z3_OP_DT_CONSTRUCTOR, z3.Z3_OP_DT_ACCESSOR, z3.Z3_OP_DT_IS):
-                pass
             todo.extend(e.children())
+    res = frozenset(acc)
+    _sym_cache[key] = (expr, res)       # keeping expr alive keeps the id stable
+    return res
+
+
+def symbols_of(expr, acc=None, seen=None):
+    """Names of uninterpreted functions/constants occurring in expr."""
+    if acc is None:
+        acc = set()
+    acc |= _symbols(expr)
     return acc
+
+
+_axiom_syms = {}
 
 
 def relevant_axioms(formulas):
     syms = set()
-    seen = set()
     for f in formulas:
-        symbols_of(f, syms, seen)
+        syms |= _symbols(f)
     chosen = []
     chosen_names = set()
     changed = True
@@ -149,8 +186,12 @@ def relevant_axioms(formulas):
             if keys & syms:
                 chosen.append((name, formula, kind))
                 chosen_names.add(name)
-                symbols_of(formula, syms, seen)
-                changed = True
+                fs = _axiom_syms.get(name)
+                if fs is None:
+                    fs = _axiom_syms[name] = _symbols(formula)
+                if not fs <= syms:
+                    syms |= fs
+                    changed = True
     return chosen
 
 
@@ -192,34 +233,37 @@ RLIMIT_EMATCH = int(os.environ.get('PYVC_RLIMIT', 3000000))
 RLIMIT_DEFAULT = RLIMIT_EMATCH // 3
 
 
+Z3_CLI = os.environ.get('PYVC_Z3', '/opt/veriftools/pyvenv/bin/z3')
+
+
 def _z3_check(smt2, timeout_ms, ematch_only):
-    ctx = z3.Context()
-    s = z3.Solver(ctx=ctx)
-    s.set('timeout', timeout_ms)
-    # deterministic resource budget (verdicts do not flip under machine load); queries that discharge use < 1e5 units
-    s.set('rlimit', RLIMIT_EMATCH if ematch_only else RLIMIT_DEFAULT)
+    """One z3 5.1 run in a child process (hard wall-clock limit: the child is killed) with a deterministic resource
+    budget.  Returns (result, seconds, model, reason)."""
+    opts = ['rlimit=%d' % (RLIMIT_EMATCH if ematch_only else RLIMIT_DEFAULT)]
     if ematch_only:
-        s.set('smt.mbqi', False)
-        s.set('smt.auto_config', False)
-    s.from_string(smt2)
+        opts += ['smt.mbqi=false', 'smt.auto_config=false']
+    with tempfile.NamedTemporaryFile('w', suffix='.smt2', delete=False, dir=os.environ.get('PYVC_TMP')) as f:
+        f.write(smt2)
+        f.write('\n(get-info :reason-unknown)\n')
+        path = f.name
     t0 = time.time()
-    import threading
-    timer = threading.Timer(timeout_ms / 1000.0 + 1.0, ctx.interrupt)     # hard stop: z3's soft timeout can overrun
-    timer.daemon = True
-    timer.start()
     try:
-        r = s.check()
-    finally:
-        timer.cancel()
-    dt = time.time() - t0
-    model = None
-    if r == z3.sat:
         try:
-            model = s.model().sexpr()
-        except Exception:      # pragma: no cover
-            model = None
-    reason = s.reason_unknown() if r == z3.unknown else ''
-    return str(r), dt, model, reason
+            p = subprocess.run([Z3_CLI, '-smt2', '-T:%d' % max(1, int(timeout_ms / 1000))] + opts + [path],
+                               capture_output=True, text=True, timeout=timeout_ms / 1000.0 + 3)
+            out = (p.stdout or '').strip().splitlines()
+        except subprocess.TimeoutExpired:
+            out = ['timeout']
+    finally:
+        os.unlink(path)
+    dt = time.time() - t0
+    res = out[0].strip() if out else 'unknown'
+    reason = ' '.join(out[1:])[:200] if len(out) > 1 else ''
+    if res not in ('sat', 'unsat'):
+        if res == 'timeout':
+            reason = 'timeout'
+        res = 'unknown'
+    return res, dt, None, reason
 
 
 def solve_smt2_z3api(smt2, timeout_ms, expect_sat=False):
@@ -235,7 +279,7 @@ def solve_smt2_z3api(smt2, timeout_ms, expect_sat=False):
     r, dt, model, reason = _z3_check(smt2, timeout_ms, True)
     if r in ('unsat', 'sat'):
         return r, dt, model, reason
-    saturated = 'incomplete quantifiers' in reason
+    saturated = 'incomplete' in reason
     r2, dt2, model2, reason2 = _z3_check(smt2, min(timeout_ms, 4000) if saturated else timeout_ms, False)
     if r2 in ('unsat', 'sat'):
         return r2, dt + dt2, model2, reason2
